@@ -603,7 +603,8 @@ Error BaseBuilder::run_passes() {
     return Error::kOk;
   }
 
-  ErrorHandler* prev = error_handler();
+  // An inherited error handler must not become the emitter's own - `set_error_handler(nullptr)` re-inherits it.
+  ErrorHandler* prev = has_own_error_handler() ? error_handler() : nullptr;
   PostponedErrorHandler postponed;
 
   Error err = Error::kOk;
